@@ -1,4 +1,5 @@
 import CasbinVerif.Spec.KeyMatch
+import CasbinVerif.Proofs.KeyMatch
 /-
   C09 — Built-in path and address matchers implement their documented semantics.
 
@@ -16,48 +17,53 @@ theorem keyMatch_spec (key1 key2 : List Char) :
       (match firstStar key2 with
        | none => decide (key1 = key2)
        | some i => (key2.take i).isPrefixOf key1) := by
-  sorry
+  exact keyMatch_spec' key1 key2
 
 /-- KeyGet returns the part covered by the `*` exactly when KeyMatch succeeds through a `*` -/
 theorem keyGet_spec (key1 key2 : List Char) (i : Nat) (hi : firstStar key2 = some i) (hlen : key1.length > i) :
     (keyMatch key1 key2 = true → key2.take i ++ keyGet key1 key2 = key1) ∧
     (keyMatch key1 key2 = false → keyGet key1 key2 = []) := by
-  sorry
+  exact keyGet_spec' key1 key2 i hi hlen
 
 /-- KeyMatch2 (`:name`) and KeyMatch3 (`{name}`) accept exactly the paths the segment semantics accepts -/
 theorem keyMatchRe_spec (st : Style) (p : Pat) (h : PatWF p = true) (path : List Char) :
     keyMatchRe st path (render st p) = some (segMatch p path) := by
-  sorry
+  exact keyMatchRe_eq st p h path
 
 /-- KeyMatch5 ignores the query string -/
 theorem keyMatch5_spec (p : Pat) (h : PatWF p = true) (path : List Char) :
     keyMatch5 path (render .brace p) = some (segMatch p (path.takeWhile (· != '?'))) := by
-  sorry
+  exact keyMatchRe_eq .brace p h _
 
 /-- KeyMatch4: repeated names must be filled with equal segments -/
 theorem keyMatch4_spec (p : Pat) (h : PatWF p = true) (path : List Char) :
     keyMatch4 path (render .brace p) = some (segMatch4 p path) := by
-  sorry
+  exact keyMatch4_eq p h path
 
 /-- KeyGet2 / KeyGet3 return the captured segment exactly when the corresponding match succeeds -/
 theorem keyGetRe_spec (st : Style) (p : Pat) (h : PatWF p = true) (path : List Char) (var : List Char) :
     keyGetRe st path (render st p) (String.ofList var) = some (segGet p path var) := by
-  sorry
+  exact keyGetRe_eq st p h path var
 
 theorem keyGet_nomatch (st : Style) (p : Pat) (h : PatWF p = true) (path : List Char) (var : List Char)
     (hm : segMatch p path = false) : keyGetRe st path (render st p) (String.ofList var) = some [] := by
-  sorry
+  rw [keyGetRe_eq st p h path var]
+  unfold segMatch at hm
+  unfold segGet
+  cases hc : segCapture p.segs p.wild path with
+  | none => rfl
+  | some vals => simp [hc] at hm
 
 /-- ipMatch agrees with CIDR arithmetic -/
 theorem ipMatch_cidr (ip net len : List Char) (a n l : Nat)
     (ha : parseIPv4 ip = some a) (hn : parseIPv4 net = some n) (hl : parsePrefixLen len = some l)
     (hnoslash : '/' ∉ net ∧ '/' ∉ len) :
     ipMatch ip (net ++ '/' :: len) = some (inBlock a n l) := by
-  sorry
+  exact ipMatch_cidr' ip net len a n l ha hn hl hnoslash
 
 /-- a parsed dotted quad is a 32-bit number -/
 theorem parseIPv4_lt (s : List Char) (a : Nat) (h : parseIPv4 s = some a) : a < 2 ^ 32 := by
-  sorry
+  exact parseIPv4_lt' s a h
 
 /-! ### non-vacuity -/
 def exPat : Pat := { segs := [.lit "proxy".toList, .ph "id".toList, .lit "x".toList], wild := true }
